@@ -126,7 +126,7 @@ PROPS["C15"] = {
                    "c15::c15_collect_vec_3", "c15::c15_collect_extend_3", "c15::c15_call_forwards",
                    "c15::c15_feed_twice_same_callback", "c15::c15_collect_vec_beyond_capacity",
                    "c15::c15_items_dropped_once", "c15::c15_citer_same_items_4", "c15::c15_citer_interleave_4",
-                   "c15::c15_citer_items_owned_once", "c15::c15_citer_unbounded_source", "c15::c15_citer_not_fused_source", "c15::c15_negative_twin"],
+                   "c15::c15_citer_items_owned_once", "c15::c15_citer_unbounded_source", "c15::c15_citer_not_fused_source", "c15::c15_citer_provided_methods_owned_once", "c15::c15_negative_twin"],
          "thorough_adds": ["c15::c15_feed_into_closure_6", "c15::c15_feed_into_mut_closure_6", "c15::c15_extend_closure_6",
                            "c15::c15_collect_vec_4", "c15::c15_collect_extend_4"],
          "timeout": 1500},
@@ -225,7 +225,7 @@ PROPS["C16"] = {
         {"id": "views",
          "quick": ["c16::c16_cbox_view", "c16::c16_carc_view", "c16::c16_carc_view_overaligned_opaque_clone", "c16::c16_slices_u8", "c16::c16_slices_u64", "c16::c16_slices_t3",
                    "c16::c16_cvec_u8_exact", "c16::c16_cvec_u64_exact", "c16::c16_cvec_u64_spare", "c16::c16_cvec_t3_empty",
-                   "c16::c16_callback_view", "c16::c16_citerator_view", "c16::c16_citerator_view_droppable_items", "c16::c16_tags", "c16::c16_negative_twin"],
+                   "c16::c16_callback_view", "c16::c16_citerator_view", "c16::c16_citerator_view_droppable_items", "c16::c16_views_made_by_c", "c16::c16_tags", "c16::c16_negative_twin"],
          "cbmc_args": LEAK, "timeout": 1200},
     ],
     "negative": ["c16::c16_negative_twin"],
